@@ -19,6 +19,13 @@ from db import AnalysisBroken
 
 FILES = ('src/polygon.cpp', 'src/tree2d.cpp', 'src/tree2d.h', 'src/polygon_internal.h')
 RESET_METHODS = {'clear', 'reset', 'assign', 'resize', 'swap'}
+# mutable statics that exist only in MANIFOLD_DEBUG builds and only steer diagnostics; the rule still verifies that no
+# other function of the triangulator sources reads or writes them
+REVIEWED_STATICS = {
+    '(anonymous namespace)::numFailures': {
+        'only_used_by': ['(anonymous namespace)::PrintFailure'],
+        'reason': 'MANIFOLD_DEBUG only: lets the first failing triangulation print its input to stdout'},
+}
 
 
 def field_path(n):
@@ -278,8 +285,19 @@ def rule_statics(chk, db, cfgname):
             continue
         n += 1
         ok = bool(v.get('const') or v.get('constexpr'))
-        chk.obligation(ok, {'variable': v['name'], 'file': v['file'], 'line': v['line'],
-                            'kind': 'const' if ok else 'MUTABLE static storage'})
+        kind = 'const' if ok else 'MUTABLE static storage'
+        rv = REVIEWED_STATICS.get(v['name'])
+        if not ok and rv:
+            # reviewed diagnostic-only state: still checked - nothing but the listed diagnostic functions may touch it
+            short = v['name'].split('::')[-1]
+            users = {T.basename(f['name'].split('::<lambda@')[0]) for f in db.functions.values()
+                     if f.get('blocks') and f['file'] in FILES and any(
+                         isinstance(y, dict) and y.get('k') == 'var' and y.get('n') in (short, v['name']) and y.get('s') not in ('l', 'p')
+                         for b in f['blocks'] for e in b['ev'] for y in T.walk(e))}
+            if users and users <= set(rv['only_used_by']):
+                ok = True
+                kind = 'reviewed diagnostic-only state (%s); used only by %s' % (rv['reason'], sorted(users))
+        chk.obligation(ok, {'variable': v['name'], 'file': v['file'], 'line': v['line'], 'kind': kind})
         if not ok:
             chk.violation('C10.3', {'name': v['name'], 'file': v['file'], 'line': v['line']},
                           'mutable static %s' % v['name'],
